@@ -147,7 +147,16 @@ def _load_from_file_system(hashed_grammar, path, p_time, cache_path=None):
                 gc.enable()
     except FileNotFoundError:
         return None
+    except Exception:
+        # The file is not a complete pickle, e.g. because a process was
+        # stopped or the disk was full while it was written (or it is
+        # written by another process right now). That's just a cache miss;
+        # the file is overwritten when the module is saved again.
+        LOG.debug('pickle could not be loaded: %s', path)
+        return None
     else:
+        if not isinstance(module_cache_item, _NodeCacheItem):
+            return None
         _set_cache_item(hashed_grammar, path, module_cache_item)
         LOG.debug('pickle loaded: %s', path)
         return module_cache_item.node
